@@ -222,6 +222,10 @@ pub trait Subject: Sync {
         None
     }
     /// which Deserializer entry points the impl calls (probing deserializer)
+    /// `deserialize_in_place` into a value built from `seed` (or a two-element Vec of it): (call result, contents of the place afterwards)
+    fn de_in_place(&self, _f: Fmt, _bytes: &[u8], _seed: &Value, _vec: bool) -> Option<(Result<(), String>, Vec<Value>)> {
+        None
+    }
     fn de_probe(&self) -> Option<(Vec<String>, Vec<(String, Value)>)> {
         None
     }
@@ -282,8 +286,22 @@ pub fn obs<T, E: Display>(f: impl FnOnce() -> Result<T, E>, inner: impl FnOnce(T
             Ok(v) => Obs::Ok(v),
             Err(p) => Obs::Panic(p),
         },
-        Ok(Err(e)) => Obs::Err { variant: vname(&e), display: e.to_string() },
+        Ok(Err(e)) => {
+            // the same error under formatting flags (read by the C16 monitor right after the call)
+            let alt = guarded(|| vec![("{:.1}", format!("{:.1}", e)), ("{:.0}", format!("{:.0}", e)), ("{:.3}", format!("{:.3}", e)), ("{:+}", format!("{:+}", e)), ("{:#}", format!("{:#}", e)), ("{:08}", format!("{:08}", e))]);
+            LAST_ERR_FORMATS.with(|c| *c.borrow_mut() = alt.unwrap_or_default());
+            Obs::Err { variant: vname(&e), display: e.to_string() }
+        }
     }
+}
+
+thread_local! {
+    static LAST_ERR_FORMATS: std::cell::RefCell<Vec<(&'static str, String)>> = const { std::cell::RefCell::new(Vec::new()) };
+}
+
+/// Display of the error returned by the most recent `obs` call on this thread under several format specs
+pub fn last_error_formats() -> Vec<(&'static str, String)> {
+    LAST_ERR_FORMATS.with(|c| c.borrow().clone())
 }
 
 /// observe an infallible constructor-like call
